@@ -59,10 +59,7 @@ Definition k_flags (fs : fsys) (root : loc) (es : list entry) (outs : list s_out
   map (fun eo : entry * s_out =>
          let (e, o) := eo in
          match e_file e, e_argv e with
-         | Some f, Some a => match extract_incs (tl a) with
-                             | Ok incs => k_agrees fs root (e_dir e) f incs o
-                             | Err _ => true
-                             end
+         | Some f, Some a => k_agrees fs root (e_dir e) f (extract_incs (tl a)) o
          | _, _ => true
          end) (combine es outs).
 
@@ -70,7 +67,7 @@ Definition k_flags (fs : fsys) (root : loc) (es : list entry) (outs : list s_out
    (P a b)  ->  (normpath a, join a b, abspath b a, basename a, suffix a, isabs a) *)
 Definition run_paths (a b : str) : data :=
   DList [estr (normpath a); estr (join a b); estr (abspath b a); estr (basename a); estr (suffix a);
-         of_bool (isabs a)].
+         of_bool (isabs a); estr (splitext_ext a)].
 
 Definition run_C13 (d : data) : data :=
   match d with
